@@ -2,11 +2,12 @@
    system.  Definitions only. *)
 From Coq Require Import List ZArith Bool.
 Import ListNotations.
-From LC Require Import Base Tree Fp Lookup Api ApiStep Script ScanAction Tokens Lexer Parser Reader Writer FloatDec.
+From LC Require Import Base Tree Fp Lookup Api ApiStep Script ScanAction Tokens Lexer Parser Reader Writer FloatDec WriteFile.
 From LC.gen Require Import Consts.
 Local Open Scope Z_scope.
 
-Record world := mkW { w_cfg : cfg; w_fs : fs }.
+Record world := mkW_ { w_cfg : cfg; w_fs : fs; w_dev : wdev }.
+Definition mkW (c : cfg) (f : fs) : world := mkW_ c f dev_ok.
 
 Definition atof : bytes -> Z := strtod_bits.
 Definition fmt_double (b prec : Z) (sci : bool) : bytes := format_double b prec sci FBUF_SIZE.
@@ -69,8 +70,32 @@ Definition show_token (t : ltoken) : bytes :=
    | TkEOF => [90]
    end) ++ [32] ++ show_dec (lt_line t).
 
+Definition w_wdev := [119;100;101;118].
+
+(* does the directory part of [path] exist in the virtual file system?  (a directory entry, or the
+   prefix of some stored file) *)
+Fixpoint dir_part (acc cur : bytes) (p : bytes) : bytes :=
+  match p with
+  | [] => rev acc
+  | c :: r => if c =? 47 then dir_part (cur ++ acc) [47] r    (* acc := everything before this slash *)
+              else dir_part acc (c :: cur) r
+  end.
+Fixpoint is_prefix (a b : bytes) : bool :=
+  match a, b with
+  | [], _ => true
+  | x :: a', y :: b' => (x =? y) && is_prefix a' b'
+  | _, [] => false
+  end.
+Definition dir_exists (f : fs) (path : bytes) : bool :=
+  let d := dir_part [] [] path in
+  match d with
+  | [] => true
+  | _ => existsb (fun e => bytes_eqb (fst e) d || is_prefix (d ++ [47]) (fst e)) f
+  end.
+
 Definition run_line (w : world) (ln : bytes) : world * list bytes * bool :=
   let c := w_cfg w in
+  let mkW := fun c' f' => mkW_ c' f' (w_dev w) in
   let ws := words ln in
   let api := fun _ : unit =>
     match parse_aop ws with
@@ -84,13 +109,26 @@ Definition run_line (w : world) (ln : bytes) : world * list bytes * bool :=
         (w, [[82;32] ++ show_ret (RStr (Some (config_write fmt_double c)))], false)
       else api tt
   | [cmd; a] =>
-      if is_w cmd w_case then (mkW cfg_init [], [[67; 32] ++ a], false)
+      if is_w cmd w_case then (mkW_ cfg_init [] dev_ok, [[67; 32] ++ a], false)
       else if is_w cmd w_reads || is_w cmd w_readst then
         let r := config_read atof (w_fs w) c None (hs_or_empty (parse_hs a)) in
         (mkW (rd_cfg r) (w_fs w), show_rd r, is_exit r)
       else if is_w cmd w_readf then
         let r := config_read_file atof (w_fs w) c (hs_or_empty (parse_hs a)) in
         (mkW (rd_cfg r) (w_fs w), show_rd r, is_exit r)
+      else if is_w cmd w_writef then
+        let path := hs_or_empty (parse_hs a) in
+        let text := config_write fmt_double c in
+        let d := match fs_lookup (w_fs w) path with
+                 | Some FDir => mkDev (dv_cap (w_dev w)) (dv_fsync_fails (w_dev w)) (dv_close_fails (w_dev w)) true
+                 | _ => if dir_exists (w_fs w) path then w_dev w
+                        else mkDev (dv_cap (w_dev w)) (dv_fsync_fails (w_dev w)) (dv_close_fails (w_dev w)) true
+                 end in
+        let r := write_file text (get_option c OPT_FSYNC) d 0 in
+        let fs' := match wf_content r with
+                   | Some t => fs_put (w_fs w) path (FFile t)
+                   | None => w_fs w end in
+        (mkW (set_err c (wf_err r)) fs', [[82;32;105; (if wf_ok r then 49 else 48)]], false)
       else if is_w cmd w_lex then
         let '(toks, stop) := lex_top atof (w_fs w) c None (hs_or_empty (parse_hs a)) in
         (w, map show_token toks ++
@@ -107,6 +145,12 @@ Definition run_line (w : world) (ln : bytes) : world * list bytes * bool :=
           (w, [[82;32] ++ show_ret (RStr (match fs_lookup (w_fs w) path with
                                           | Some (FFile t) => Some t | _ => None end))], false)
         else (w, [[82;32;63]], false)
+      else api tt
+  | [cmd; a1; a2; a3; a4] =>
+      if is_w cmd w_wdev then
+        (mkW_ c (w_fs w) (mkDev (if parse_num a1 <? 0 then None else Some (parse_num a1))
+                                (negb (parse_num a2 =? 0)) (negb (parse_num a3 =? 0)) (negb (parse_num a4 =? 0))),
+         [[82;32;117;110;105;116]], false)
       else api tt
   | [cmd; sub; p; content] =>
       if is_w cmd w_fs_ && is_w sub w_put then
